@@ -62,6 +62,7 @@ def run(tier, replay=None):
     bad_sites = [s for s in inv["sites"] if s["shape"] not in ok_shapes]
     bad_files = [f for f in inv["file_sites"] if (f["reachable_from_example"] and not f["skip_exist"]) or (f["reachable_from_gen"] and f["skip_exist"])]
     bad_ambient = [a for a in inv.get("ambient_sites", []) if not a["allowed"]]
+    n_path_sites = sum(len(f.get("path_shapes") or []) for f in inv["file_sites"] if f["reachable_from_gen"])
 
     binp = ck.go_build("c09")
     base = [binp, "-seed", str(ck.seed), "-tier", tier, "-repo", os.path.realpath(REPO)]
@@ -90,6 +91,20 @@ def run(tier, replay=None):
         if mism is None and was_ok is False:
             ck.coq_error = was_err     # keep the first (build) error
         elif was_ok is False:
+            ck.coq_ok, ck.coq_error = was_ok, was_err
+
+    # correspondence of the path computation (codegen.SnakeCase, filepath.Join)
+    pmism = {}
+    if os.path.exists(run_vo):
+        was_ok, was_err = ck.coq_ok, ck.coq_error
+        hdr2 = "From GenFS Require Import Model Run.\nFrom Coq Require Import List NArith.\nImport ListNotations.\nOpen Scope N_scope."
+        for tag, typ, fn in (("snake", "N * bytes * bytes", "snake_mismatches"), ("join", "N * list bytes * list bytes", "join_mismatches")):
+            pth = os.path.join(ck.work, "cases_%s.txt" % tag)
+            pl = [l for l in open(pth).read().splitlines() if l.strip()] if os.path.exists(pth) else []
+            if pl:
+                r_ = ck.coq_eval_cases(pl, hdr2, typ, fn, tag=tag, shards=min(8, max(1, len(pl) // 300)))
+                pmism[tag] = (r_, pl)
+        if was_ok is False:
             ck.coq_ok, ck.coq_error = was_ok, was_err
 
     searched = None
@@ -127,16 +142,24 @@ def run(tier, replay=None):
                     {"broken": "Run.case_ok: model_final(files observed in an empty directory, history) = observed final directory (paths, digests, last-write step)",
                      "first_disagreeing_case": first, "case_line": lines[mism[0]][:4000], "mismatching_case_indexes": mism[:50]})
 
+    if ck.coq_ok and not ck.violations:
+        for tag, (r_, pl) in pmism.items():
+            if r_:
+                ck.unproved("correspondence GenFS.%s vs the real %s broke on %d of %d cases" % ("snake_case" if tag == "snake" else "join_clean", "codegen.SnakeCase" if tag == "snake" else "filepath.Join", len(r_), len(pl)),
+                            {"broken": "Run.%s_mismatches" % tag, "first_disagreeing_case": pl[r_[0]][:1000], "mismatching_case_indexes": r_[:50]})
     extra = res.get("extra", {})
     cov = {"evaluations": res["evaluations"], "distinct_nontrivial": res["distinct_nontrivial"], "rule": res["rule"],
            "samples": res["samples"], "distribution": res["distribution"],
            "model_mismatches": (len(mism) if mism is not None else None), "model_cases": len(lines),
            "exhaustive": False,
+           "path_model_cases": {t: len(v[1]) for t, v in pmism.items()},
+           "path_model_mismatches": {t: (len(v[0]) if v[0] is not None else None) for t, v in pmism.items()},
            "inventory": {"map_range_sites": len(inv["sites"]),
                          "by_shape": {sh_: len([s for s in inv["sites"] if s["shape"] == sh_]) for sh_ in sorted({s["shape"] for s in inv["sites"]})},
                          "allow_listed_inspected": [s["site"] for s in inv["sites"] if s.get("allow") == "inspected"],
                          "allow_listed_findings": [s["site"] for s in inv["sites"] if s.get("allow") == "finding"],
                          "file_literal_sites": len(inv["file_sites"]),
+                         "gen_path_sites": n_path_sites,
                          "example_file_sites": len([f for f in inv["file_sites"] if f["reachable_from_example"]]),
                          "ambient_input_sites": [a["site"] for a in inv.get("ambient_sites", [])]},
            "tool_vs_library_byte_identical": "%s of %s designs" % (extra.get("printer_agree"), extra.get("printer_checked")),
